@@ -67,6 +67,30 @@ def run(ck):
     asan_lines("run", [c19.gen_case(rng, "c10r%d" % i, forced=s)["line"] for i, s in enumerate(["steady", "divide", "remove", "empty"] * (1 if quick else 6))], wrap=True)
     asan_lines("init", [c13.gen_ini(rng)["line"] for _ in range(8 if quick else 80)] + [c13.gen_gate(rng)[0] for _ in range(10 if quick else 100)], wrap=True)
     asan_lines("divide", [c09.gen_div(rng, "c10d")["line"] for _ in range(5 if quick else 60)], wrap=True)
+    # several cells dividing in one pass under 4 threads (the mothers finish in varying order): besides the sanitizer, every list
+    # index a cell stores for later use as a subscript must be its position afterwards (a stale index is an access after erase
+    # waiting for its trigger)
+    exe_div = vlib.build_driver("divide", wrap_clock=True, san=True)
+    for c in [c09.gen_multi(rng) for _ in range(4 if quick else 40)]:
+        for rep in range(2):
+            nscen += 1; dist["divide(4 threads)"] = dist.get("divide(4 threads)", 0) + 1
+            try:
+                r = vlib.run([exe_div], input=c["line"] + "\n", timeout=1800, env=dict(ASAN_ENV, OMP_NUM_THREADS="4"))
+            except subprocess.TimeoutExpired:
+                continue
+            cl = classify(r.stderr)
+            if cl:
+                fails.append(("no_memory_error", cl, dict(driver="divide", input=c["line"][:100000], report=r.stderr[:8000], threads=4), "%s in %s (cell_divider::run, 4 threads, under AddressSanitizer/UBSan)" % cl)); break
+            if r.returncode != 0 or "RUNPOP" not in r.stdout:
+                fails.append(("no_crash", ("signal", "divide4"), dict(driver="divide", input=c["line"][:100000], stderr=r.stderr[-3000:], threads=4), "cell_divider::run on %s with 4 threads died (exit %s)" % (c["layout"], r.returncode))); break
+            try:
+                pop = c09.parse_div(r.stdout)[4]
+            except Exception:
+                continue
+            idx = [x[1] for x in pop["after"]]
+            if idx != list(range(len(idx))):
+                fails.append(("stored_list_index_is_position", ("index", "cell_divider::run"), dict(driver="divide", input=c["line"][:100000], threads=4, list_indices=idx),
+                              "after simultaneous divisions of %s under 4 threads the cells at positions 0..%d carry list indices %s: the next subscript through them reads another cell's nodes or past the list" % (c["layout"], len(idx) - 1, idx))); break
     asan_lines("contact", [cc.case_line(cc.gen_tissue(rng)) for _ in range(8 if quick else 100)], contact=1)
     # refinement histories from compact vectors (the C01 generator), if available
     try:
